@@ -319,8 +319,8 @@ def shard(ctx):
             n_b += 1
     ctx.event("boundary_constructions", n_b)
     ctx.add_extra("exhaustive_boundary_subdomain", True)
-    ctx.run_given(decision_cases(), case, label="decision")
-    ctx.run_given(filter_cases(cpp=False), case, examples=ctx.budget["filter_examples"], label="pyfilter")
+    ctx.run_given(decision_cases(), case, label="decision", share=0.35)
+    ctx.run_given(filter_cases(cpp=False), case, examples=ctx.budget["filter_examples"], label="pyfilter", share=0.3)
     # generated C++: the disabled setting is forced in every third shard (Hypothesis' first example is the minimal one,
     # so low example counts must not leave the class to chance)
     inn = ("none",) if ctx.shard % 3 == 0 else ("k",)
